@@ -112,3 +112,12 @@ func TestC10Promotion(t *testing.T) {
 	runStackProperty(t, "C10", "TestC10Promotion", func(rt *rapid.T) SProgram { return GenSProgram(rt, c10StackCfg) },
 		func(p SProgram, x *SExec) bool { return x.Labels["promote:ok"] > 0 && x.Labels["write:acked"] > 0 })
 }
+
+// TestC07Window — the same programs with the repository's own debug hook: the
+// foreground writes land exactly between UpdateLUNMap's preload and its merge.
+func TestC07Window(t *testing.T) {
+	runStackProperty(t, "C07", "TestC07Window", func(rt *rapid.T) SProgram { return GenSProgram(rt, c07Cfg) },
+		func(p SProgram, x *SExec) bool {
+			return x.Labels["rebuild:promoted"] > 0 && x.Labels["rebuild:writes-inside-lunmap-window"] > 0
+		})
+}
